@@ -427,6 +427,13 @@ func (tc *tableCollector) collectFromNode(node ast.Node) {
 		if n.With != nil {
 			tc.collectFromNode(n.With)
 		}
+	case *ast.MergeStatement:
+		if n.TargetTable.Name != "" {
+			tc.tables[n.TargetTable.Name] = true
+		}
+		if n.SourceTable.Name != "" {
+			tc.tables[n.SourceTable.Name] = true
+		}
 	case *ast.WithClause:
 		for _, cte := range n.CTEs {
 			tc.collectFromNode(cte)
@@ -510,6 +517,13 @@ func (qtc *qualifiedTableCollector) collectFromNode(node ast.Node) {
 		}
 		if n.With != nil {
 			qtc.collectFromNode(n.With)
+		}
+	case *ast.MergeStatement:
+		if n.TargetTable.Name != "" {
+			qtc.addTable(n.TargetTable.Name)
+		}
+		if n.SourceTable.Name != "" {
+			qtc.addTable(n.SourceTable.Name)
 		}
 	case *ast.WithClause:
 		for _, cte := range n.CTEs {
